@@ -169,6 +169,40 @@ theorem PC_ret {C A a ps} (h : a.reach ⊆ C) (hp : ps.reach ⊆ C) (hl : ps.has
     PCA C A (some (a, ps), []) :=
   ⟨LogOK_nil C A, by intro a' ps' h'; cases h'; exact ⟨h, hp, hl⟩⟩
 
+/-- resolving imports: the compiled expression reaches only `C` -/
+def PRA (C : List Cap) (A : List String) (r : RRes) : Prop :=
+  LogOK C A r.2 ∧ ∀ a, r.1 = some a → a.reach ⊆ C
+
+theorem PRA_mono {C A A' r} (hA : A ⊆ A') (h : PRA C A r) : PRA C A' r := ⟨LogOK_mono hA h.1, h.2⟩
+
+theorem PR_bind {C A} {r : RRes} {f : Ast → RRes} (hr : PRA C A r) (hf : ∀ a, a.reach ⊆ C → PRA C A (f a)) :
+    PRA C A (r.bind f) := by
+  obtain ⟨o, l⟩ := r
+  cases o with
+  | none => exact ⟨hr.1, by intro v h; cases h⟩
+  | some v =>
+    have := hf v (hr.2 v rfl)
+    exact ⟨LogOK_append hr.1 this.1, this.2⟩
+
+theorem PR_map {C A} {r : RRes} {g : Ast → Ast} (hr : PRA C A r)
+    (hg : ∀ a, a.reach ⊆ C → (g a).reach ⊆ C) : PRA C A (r.map g) := by
+  obtain ⟨o, l⟩ := r
+  cases o with
+  | none => exact ⟨hr.1, by intro v h; cases h⟩
+  | some v => exact ⟨hr.1, by intro a h; cases h; exact hg v (hr.2 v rfl)⟩
+
+theorem PR_ret {C A a} (h : a.reach ⊆ C) : PRA C A (some a, []) :=
+  ⟨LogOK_nil C A, by intro a' h'; cases h'; exact h⟩
+
+theorem PC_bindR {C A} {r : RRes} {f : Ast → CRes} (hr : PRA C A r) (hf : ∀ a, a.reach ⊆ C → PCA C A (f a)) :
+    PCA C A (r.bindC f) := by
+  obtain ⟨o, l⟩ := r
+  cases o with
+  | none => exact ⟨hr.1, by intro v ps h; cases h⟩
+  | some v =>
+    have := hf v (hr.2 v rfl)
+    exact ⟨LogOK_append hr.1 this.1, this.2⟩
+
 theorem P_getAttr {C} {t : Val} (k : String) (h : t.reach ⊆ C) : P C (getAttr t k) := by
   unfold getAttr
   split
@@ -272,8 +306,10 @@ theorem fsImports_of_lookup : ∀ (fs : List (String × File)) (p : String) (a :
       | bytes => simpa [fsImports] using ih
 
 structure Inv (W : World) (C : List Cap) (n : Nat) : Prop where
-  compile : ∀ c ps a, c.dyn.reach ⊆ C → (c.sandboxed = true ∨ FsOK W C) → (∃ L, c.lib = some L ∧ L.reach ⊆ C) →
-    ps.hasLib = true → ps.reach ⊆ C → a.reach ⊆ C → PCA C (impAllowed W c a) (compile W n c ps a)
+  expand : ∀ c ps a, c.dyn.reach ⊆ C → (c.sandboxed = true ∨ FsOK W C) → (∃ L, c.lib = some L ∧ L.reach ⊆ C) →
+    ps.hasLib = true → ps.reach ⊆ C → a.reach ⊆ C → PCA C (impAllowed W c a) (expand W n c ps a)
+  resolve : ∀ c a, c.dyn.reach ⊆ C → (c.sandboxed = true ∨ FsOK W C) → (∃ L, c.lib = some L ∧ L.reach ⊆ C) →
+    a.reach ⊆ C → PRA C (impAllowed W c a) (resolve W n c a)
   run : ∀ c s e, c.dyn.reach ⊆ C → scopeCaps s e ⊆ C → P C (run W n c s e)
   call : ∀ c f a, c.dyn.reach ⊆ C → f.reach ⊆ C → a.reach ⊆ C → P C (call W n c f a)
   ceval : ∀ c ec v, (W.fixes.dynBarrier = true ∨ c.dyn.reach ⊆ C) → cfgCaps W ec ⊆ C → v.reach ⊆ C →
@@ -282,8 +318,9 @@ structure Inv (W : World) (C : List Cap) (n : Nat) : Prop where
     a.reach ⊆ C → PA C (impAllowed W c a) (evalWithScope W n c a s)
 
 theorem inv_zero (W : World) (C : List Cap) : Inv W C 0 := by
-  refine ⟨?_, ?_, ?_, ?_, ?_⟩
-  · intro c ps a _ _ _ _ _ _; simp only [Impl.compile]; exact ⟨LogOK_nil C _, by intro a ps h; cases h⟩
+  refine ⟨?_, ?_, ?_, ?_, ?_, ?_⟩
+  · intro c ps a _ _ _ _ _ _; simp only [Impl.expand]; exact ⟨LogOK_nil C _, by intro a ps h; cases h⟩
+  · intro c a _ _ _ _; simp only [Impl.resolve]; exact ⟨LogOK_nil C _, by intro a h; cases h⟩
   · intro c s e _ _; simp only [Impl.run]; exact P_fail C
   · intro c f a _ _ _; simp only [Impl.call]; exact P_fail C
   · intro c ec v _ _ _; simp only [Impl.contextualEval]; exact P_fail C
@@ -614,6 +651,103 @@ theorem bindHook_ok {C : List Cap} {ps : Val} {x : String} {v : Ast} (hl : ps.ha
   refine ⟨Val.hasLib_bind _ _ _ (Val.hasLib_bind _ _ _ hl), ?_⟩
   exact fun c hc => (append_sub ht h1) (Val.bind_reach _ x _ hc)
 
+/-- parsing only removes import syntax (a macro becomes its expansion): what is left to resolve afterwards is
+named in the source -/
+theorem expand_imports (W : World) : ∀ (n : Nat) (c : Ctx) (ps : Val) (a a1 : Ast) (ps1 : Val),
+    (expand W n c ps a).1 = some (a1, ps1) → a1.imports ⊆ a.imports
+  | 0, _, _, _, _, _, h => by simp [Impl.expand] at h
+  | n+1, c, ps, a, a1, ps1, h => by
+    have bindEq : ∀ (r : CRes) (f : Ast → Val → CRes) (y : Ast × Val), (r.bind f).1 = some y →
+        ∃ x px, r.1 = some (x, px) ∧ (f x px).1 = some y := by
+      intro r f y hy
+      obtain ⟨o, l⟩ := r
+      cases o with
+      | none => simp [CRes.bind] at hy
+      | some v => exact ⟨v.1, v.2, rfl, by simpa [CRes.bind] using hy⟩
+    have mapEq : ∀ (r : CRes) (g : Ast → Ast) (y : Ast × Val), (r.map g).1 = some y →
+        ∃ x, r.1 = some (x, y.2) ∧ y.1 = g x := by
+      intro r g y hy
+      obtain ⟨o, l⟩ := r
+      cases o with
+      | none => simp [CRes.map] at hy
+      | some v =>
+        simp only [CRes.map, Option.map_some, Option.some.injEq] at hy
+        exact ⟨v.1, by simp [← hy], by simp [← hy]⟩
+    have bindCEq : ∀ (r : RRes) (f : Ast → CRes) (y : Ast × Val), (r.bindC f).1 = some y →
+        ∃ x, r.1 = some x ∧ (f x).1 = some y := by
+      intro r f y hy
+      obtain ⟨o, l⟩ := r
+      cases o with
+      | none => simp [RRes.bindC] at hy
+      | some v => exact ⟨v, rfl, by simpa [RRes.bindC] using hy⟩
+    cases a with
+    | lam x b =>
+      simp only [Impl.expand] at h
+      obtain ⟨b1, hb, hy⟩ := mapEq _ _ _ h
+      simp only at hy hb
+      subst hy
+      simpa [Ast.imports] using expand_imports W n c ps b b1 ps1 hb
+    | dot e k =>
+      simp only [Impl.expand] at h
+      obtain ⟨e1, he, hy⟩ := mapEq _ _ _ h
+      simp only at hy he
+      subst hy
+      simpa [Ast.imports] using expand_imports W n c ps e e1 ps1 he
+    | app f x =>
+      simp only [Impl.expand] at h
+      obtain ⟨f1, pf, hf, h2⟩ := bindEq _ _ _ h
+      obtain ⟨x1, hx, hy⟩ := mapEq _ _ _ h2
+      simp only at hy hx
+      subst hy
+      simp only [Ast.imports]
+      intro p hp
+      rcases List.mem_append.1 hp with h1 | h1
+      · exact List.mem_append_left _ (expand_imports W n c ps f f1 pf hf h1)
+      · exact List.mem_append_right _ (expand_imports W n c pf x x1 ps1 hx h1)
+    | tcons k v r =>
+      simp only [Impl.expand] at h
+      obtain ⟨v1, pv, hv, h2⟩ := bindEq _ _ _ h
+      obtain ⟨r1, hr, hy⟩ := mapEq _ _ _ h2
+      simp only at hy hr
+      subst hy
+      simp only [Ast.imports]
+      intro p hp
+      rcases List.mem_append.1 hp with h1 | h1
+      · exact List.mem_append_left _ (expand_imports W n c ps v v1 pv hv h1)
+      · exact List.mem_append_right _ (expand_imports W n c pv r r1 ps1 hr h1)
+    | letE x v b =>
+      simp only [Impl.expand] at h
+      obtain ⟨v1, pv, hv, h2⟩ := bindEq _ _ _ h
+      obtain ⟨v2, _, h3⟩ := bindCEq _ _ _ h2
+      obtain ⟨b1, hb, hy⟩ := mapEq _ _ _ h3
+      simp only at hy hb
+      subst hy
+      simp only [Ast.imports]
+      intro p hp
+      rcases List.mem_append.1 hp with h1 | h1
+      · exact List.mem_append_left _ (expand_imports W n c ps v v1 pv hv h1)
+      · exact List.mem_append_right _ (expand_imports W n c _ b b1 ps1 hb h1)
+    | mac f =>
+      simp only [Impl.expand] at h
+      obtain ⟨f1, pf, _, h2⟩ := bindEq _ _ _ h
+      obtain ⟨f2, _, h3⟩ := bindCEq _ _ _ h2
+      -- the result is a literal
+      have resBind : ∀ (r : Res) (g : Val → CRes) (y : Ast × Val), (r.bindC g).1 = some y →
+          ∃ v, (g v).1 = some y := by
+        intro r g y hy
+        obtain ⟨o, l⟩ := r
+        cases o with
+        | none => simp [Res.bindC] at hy
+        | some v => exact ⟨v, by simpa [Res.bindC] using hy⟩
+      obtain ⟨_, h4⟩ := resBind _ _ _ h3
+      obtain ⟨_, h5⟩ := resBind _ _ _ h4
+      obtain ⟨v, h6⟩ := resBind _ _ _ h5
+      simp only [Option.some.injEq, Prod.mk.injEq] at h6
+      simp [← h6.1, Ast.imports]
+    | num _ | str _ | quote _ | var _ | tnil | pkg _ | imp _ | lit _ | imported _ =>
+      simp only [Impl.expand, Option.some.injEq, Prod.mk.injEq] at h
+      simp [← h.1]
+
 theorem inv_ews {W : World} {C : List Cap} {n : Nat} (ih : Inv W C n) (hfix : W.fixes.core) :
     ∀ c a s, c.dyn.reach ⊆ C → (c.sandboxed = true ∨ FsOK W C) → s.hasLib = true → s.reach ⊆ C →
       a.reach ⊆ C → PA C (impAllowed W c a) (evalWithScope W (n+1) c a s) := by
@@ -630,73 +764,178 @@ theorem inv_ews {W : World} {C : List Cap} {n : Nat} (ih : Inv W C n) (hfix : W.
         = baseScope { sandboxed := c.sandboxed, compiling := c.compiling, lib := some l, dyn := c.dyn } := by
       simp [parseScope0, hfix.1]
     rw [hps0]
-    have hcomp := ih.compile { sandboxed := c.sandboxed, compiling := true, lib := some l, dyn := c.dyn }
+    have hexp := ih.expand { sandboxed := c.sandboxed, compiling := true, lib := some l, dyn := c.dyn }
       (baseScope { sandboxed := c.sandboxed, compiling := c.compiling, lib := some l, dyn := c.dyn }) a hd hsb
       ⟨l, rfl, hlr⟩ hps.1 hps.2 ha
+    have himp := expand_imports W n { sandboxed := c.sandboxed, compiling := true, lib := some l, dyn := c.dyn }
+      (baseScope { sandboxed := c.sandboxed, compiling := c.compiling, lib := some l, dyn := c.dyn }) a
     have hA : impAllowed W { sandboxed := c.sandboxed, compiling := true, lib := some l, dyn := c.dyn } a
         = impAllowed W c a := rfl
-    rw [hA] at hcomp
-    revert hcomp
-    generalize Impl.compile W n { sandboxed := c.sandboxed, compiling := true, lib := some l, dyn := c.dyn }
+    rw [hA] at hexp
+    revert hexp himp
+    generalize Impl.expand W n { sandboxed := c.sandboxed, compiling := true, lib := some l, dyn := c.dyn }
       (baseScope { sandboxed := c.sandboxed, compiling := c.compiling, lib := some l, dyn := c.dyn }) a = r
-    intro hcomp
+    intro hexp himp
     obtain ⟨o, lg⟩ := r
     cases o with
-    | none => exact ⟨hcomp.1, by intro v h; cases h⟩
+    | none => exact ⟨hexp.1, by intro v h; cases h⟩
     | some x =>
-      obtain ⟨a', ps'⟩ := x
+      obtain ⟨a1, ps'⟩ := x
       simp only
-      have ha' : a'.reach ⊆ C := (hcomp.2 a' ps' rfl).1
-      have hrun := ih.run { sandboxed := c.sandboxed, compiling := false, lib := some l, dyn := c.dyn } s a' hd (by
-        unfold scopeCaps
-        simp only [hl, Bool.true_or, ↓reduceIte, List.append_nil]
-        exact append_sub hs ha')
-      exact ⟨LogOK_append hcomp.1 (LogOK_mono (List.nil_subset _) hrun.1), hrun.2⟩
+      have ha1 : a1.reach ⊆ C := (hexp.2 a1 ps' rfl).1
+      have hres := ih.resolve { sandboxed := c.sandboxed, compiling := true, lib := some l, dyn := c.dyn } a1 hd hsb
+        ⟨l, rfl, hlr⟩ ha1
+      have hA1 : impAllowed W { sandboxed := c.sandboxed, compiling := true, lib := some l, dyn := c.dyn } a1
+          ⊆ impAllowed W c a := impAllowed_mono (c := c) (himp a1 ps' rfl)
+      have hres' := PRA_mono hA1 hres
+      revert hres'
+      generalize Impl.resolve W n { sandboxed := c.sandboxed, compiling := true, lib := some l, dyn := c.dyn } a1 = r2
+      intro hres'
+      obtain ⟨o2, lg2⟩ := r2
+      cases o2 with
+      | none => exact ⟨LogOK_append hexp.1 hres'.1, by intro v h; cases h⟩
+      | some a2 =>
+        simp only
+        have ha2 : a2.reach ⊆ C := hres'.2 a2 rfl
+        have hrun := ih.run { sandboxed := c.sandboxed, compiling := false, lib := some l, dyn := c.dyn } s a2 hd (by
+          unfold scopeCaps
+          simp only [hl, Bool.true_or, ↓reduceIte, List.append_nil]
+          exact append_sub hs ha2)
+        exact ⟨LogOK_append (LogOK_append hexp.1 hres'.1) (LogOK_mono (List.nil_subset _) hrun.1), hrun.2⟩
 
-theorem inv_compile {W : World} {C : List Cap} {n : Nat} (ih : Inv W C n)
-    (hfix : W.fixes.core) :
+theorem inv_expand {W : World} {C : List Cap} {n : Nat} (ih : Inv W C n) :
     ∀ c ps a, c.dyn.reach ⊆ C → (c.sandboxed = true ∨ FsOK W C) → (∃ L, c.lib = some L ∧ L.reach ⊆ C) →
-      ps.hasLib = true → ps.reach ⊆ C → a.reach ⊆ C → PCA C (impAllowed W c a) (compile W (n+1) c ps a) := by
+      ps.hasLib = true → ps.reach ⊆ C → a.reach ⊆ C → PCA C (impAllowed W c a) (expand W (n+1) c ps a) := by
   intro c ps a hd hsb hlib hpl hpr ha
+  have hexpImp := expand_imports W n c
   cases a with
   | lam x b =>
-    simp only [Impl.compile]
+    simp only [Impl.expand]
     exact PC_map (PCA_mono (impAllowed_mono (by simp [Ast.imports]))
-      (ih.compile c ps b hd hsb hlib hpl hpr (by simpa [Ast.reach] using ha))) (by simp [Ast.reach])
+      (ih.expand c ps b hd hsb hlib hpl hpr (by simpa [Ast.reach] using ha))) (by simp [Ast.reach])
   | app f x =>
-    simp only [Impl.compile]
+    simp only [Impl.expand]
     simp only [Ast.reach] at ha
     exact PC_bind (PCA_mono (impAllowed_mono (by simp [Ast.imports]))
-        (ih.compile c ps f hd hsb hlib hpl hpr (sub_of_append_left ha))) fun f' ps1 hf' hp1 hl1 =>
+        (ih.expand c ps f hd hsb hlib hpl hpr (sub_of_append_left ha))) fun f' ps1 hf' hp1 hl1 =>
       PC_map (PCA_mono (impAllowed_mono (by simp [Ast.imports]))
-        (ih.compile c ps1 x hd hsb hlib hl1 hp1 (sub_of_append_right ha)))
+        (ih.expand c ps1 x hd hsb hlib hl1 hp1 (sub_of_append_right ha)))
         (fun a' ha' => by simpa [Ast.reach] using append_sub hf' ha')
   | letE x v b =>
-    simp only [Impl.compile]
+    simp only [Impl.expand]
     simp only [Ast.reach] at ha
-    exact PC_bind (PCA_mono (impAllowed_mono (by simp [Ast.imports]))
-        (ih.compile c ps v hd hsb hlib hpl hpr (sub_of_append_left ha))) fun v' ps1 hv' hp1 hl1 =>
-      PC_map (PCA_mono (impAllowed_mono (by simp [Ast.imports]))
-        (ih.compile c _ b hd hsb hlib (bindHook_ok hl1 hp1 hv').1 (bindHook_ok hl1 hp1 hv').2
-          (sub_of_append_right ha)))
-        (fun a' ha' => by simpa [Ast.reach] using append_sub hv' ha')
+    have hv := ih.expand c ps v hd hsb hlib hpl hpr (sub_of_append_left ha)
+    have hvi := hexpImp ps v
+    revert hv hvi
+    generalize Impl.expand W n c ps v = rv
+    intro hv hvi
+    obtain ⟨ov, lv⟩ := rv
+    cases ov with
+    | none => exact ⟨LogOK_mono (impAllowed_mono (by simp [Ast.imports])) hv.1, by intro a ps h; cases h⟩
+    | some xv =>
+      obtain ⟨v1, ps1⟩ := xv
+      have h3 := hv.2 v1 ps1 rfl
+      have hA1 : impAllowed W c v1 ⊆ impAllowed W c (.letE x v b) :=
+        impAllowed_mono (fun p hp => by simpa [Ast.imports] using Or.inl (hvi v1 ps1 rfl hp))
+      have hrest : PCA C (impAllowed W c (.letE x v b))
+          ((resolve W n c v1).bindC fun v2 =>
+            (expand W n c ((ps1.bind "." (.thunk ps1 v2)).bind x (.thunk ps1 v2)) b).map (.letE x v1)) :=
+        PC_bindR (PRA_mono hA1 (ih.resolve c v1 hd hsb hlib h3.1)) fun v2 hv2 =>
+          PC_map (PCA_mono (impAllowed_mono (by simp [Ast.imports]))
+            (ih.expand c _ b hd hsb hlib (bindHook_ok h3.2.2 h3.2.1 hv2).1 (bindHook_ok h3.2.2 h3.2.1 hv2).2
+              (sub_of_append_right ha)))
+            (fun a' ha' => by simpa [Ast.reach] using append_sub h3.1 ha')
+      exact ⟨LogOK_append (LogOK_mono (impAllowed_mono (by simp [Ast.imports])) hv.1) hrest.1, hrest.2⟩
   | tcons k v r =>
-    simp only [Impl.compile]
+    simp only [Impl.expand]
     simp only [Ast.reach] at ha
     exact PC_bind (PCA_mono (impAllowed_mono (by simp [Ast.imports]))
-        (ih.compile c ps v hd hsb hlib hpl hpr (sub_of_append_left ha))) fun v' ps1 hv' hp1 hl1 =>
+        (ih.expand c ps v hd hsb hlib hpl hpr (sub_of_append_left ha))) fun v' ps1 hv' hp1 hl1 =>
       PC_map (PCA_mono (impAllowed_mono (by simp [Ast.imports]))
-        (ih.compile c ps1 r hd hsb hlib hl1 hp1 (sub_of_append_right ha)))
+        (ih.expand c ps1 r hd hsb hlib hl1 hp1 (sub_of_append_right ha)))
         (fun a' ha' => by simpa [Ast.reach] using append_sub hv' ha')
   | dot e k =>
-    simp only [Impl.compile]
+    simp only [Impl.expand]
     exact PC_map (PCA_mono (impAllowed_mono (by simp [Ast.imports]))
-      (ih.compile c ps e hd hsb hlib hpl hpr (by simpa [Ast.reach] using ha))) (by simp [Ast.reach])
+      (ih.expand c ps e hd hsb hlib hpl hpr (by simpa [Ast.reach] using ha))) (by simp [Ast.reach])
+  | mac f =>
+    simp only [Impl.expand]
+    have hsc : ∀ (s : Val) (e : Ast), s.hasLib = true → s.reach ⊆ C → e.reach ⊆ C → scopeCaps s e ⊆ C := by
+      intro s e hsl hsr he
+      unfold scopeCaps
+      simp only [hsl, Bool.true_or, ↓reduceIte, List.append_nil]
+      exact append_sub hsr he
+    have hnil : ∀ {r : Res}, P C r → PA C (impAllowed W c (.mac f)) r := PA_mono (List.nil_subset _)
+    have hf := ih.expand c ps f hd hsb hlib hpl hpr (by simpa [Ast.reach] using ha)
+    have hfi := hexpImp ps f
+    revert hf hfi
+    generalize Impl.expand W n c ps f = rf
+    intro hf hfi
+    obtain ⟨of, lf⟩ := rf
+    cases of with
+    | none => exact ⟨LogOK_mono (impAllowed_mono (by simp [Ast.imports])) hf.1, by intro a ps h; cases h⟩
+    | some xf =>
+      obtain ⟨f1, ps1⟩ := xf
+      have h3 := hf.2 f1 ps1 rfl
+      have hA1 : impAllowed W c f1 ⊆ impAllowed W c (.mac f) :=
+        impAllowed_mono (fun p hp => by simpa [Ast.imports] using hfi f1 ps1 rfl hp)
+      have hrest : PCA C (impAllowed W c (.mac f))
+          ((resolve W n c f1).bindC fun f2 =>
+            (run W n c ps1 grammarRef).bindC fun _ =>
+            (run W n c ps1 f2).bindC fun fv =>
+            (call W n c fv .data).bindC fun v => (some (.lit v, ps1), [])) := by
+        refine PC_bindR (PRA_mono hA1 (ih.resolve c f1 hd hsb hlib h3.1)) fun f2 hf2 => ?_
+        refine PC_bindC (hnil (ih.run c ps1 grammarRef hd
+          (hsc ps1 _ h3.2.2 h3.2.1 (by simp [grammarRef, Ast.reach])))) fun _ _ => ?_
+        refine PC_bindC (hnil (ih.run c ps1 f2 hd (hsc ps1 f2 h3.2.2 h3.2.1 hf2))) fun fv hfv => ?_
+        refine PC_bindC (hnil (ih.call c fv .data hd hfv (by simp [Val.reach]))) fun v hv => ?_
+        exact PC_ret (by simpa [Ast.reach] using hv) h3.2.1 h3.2.2
+      exact ⟨LogOK_append (LogOK_mono (impAllowed_mono (by simp [Ast.imports])) hf.1) hrest.1, hrest.2⟩
+  | num _ | str _ | quote _ | var _ | tnil | pkg _ | imp _ | lit _ | imported _ =>
+    simp only [Impl.expand]; exact PC_ret ha hpr hpl
+
+theorem inv_resolve {W : World} {C : List Cap} {n : Nat} (ih : Inv W C n) (hfix : W.fixes.core) :
+    ∀ c a, c.dyn.reach ⊆ C → (c.sandboxed = true ∨ FsOK W C) → (∃ L, c.lib = some L ∧ L.reach ⊆ C) →
+      a.reach ⊆ C → PRA C (impAllowed W c a) (resolve W (n+1) c a) := by
+  intro c a hd hsb hlib ha
+  cases a with
+  | lam x b =>
+    simp only [Impl.resolve]
+    exact PR_map (PRA_mono (impAllowed_mono (by simp [Ast.imports]))
+      (ih.resolve c b hd hsb hlib (by simpa [Ast.reach] using ha))) (by simp [Ast.reach])
+  | app f x =>
+    simp only [Impl.resolve]
+    simp only [Ast.reach] at ha
+    exact PR_bind (PRA_mono (impAllowed_mono (by simp [Ast.imports]))
+        (ih.resolve c f hd hsb hlib (sub_of_append_left ha))) fun f' hf' =>
+      PR_map (PRA_mono (impAllowed_mono (by simp [Ast.imports]))
+        (ih.resolve c x hd hsb hlib (sub_of_append_right ha)))
+        (fun a' ha' => by simpa [Ast.reach] using append_sub hf' ha')
+  | letE x v b =>
+    simp only [Impl.resolve]
+    simp only [Ast.reach] at ha
+    exact PR_bind (PRA_mono (impAllowed_mono (by simp [Ast.imports]))
+        (ih.resolve c v hd hsb hlib (sub_of_append_left ha))) fun v' hv' =>
+      PR_map (PRA_mono (impAllowed_mono (by simp [Ast.imports]))
+        (ih.resolve c b hd hsb hlib (sub_of_append_right ha)))
+        (fun a' ha' => by simpa [Ast.reach] using append_sub hv' ha')
+  | tcons k v r =>
+    simp only [Impl.resolve]
+    simp only [Ast.reach] at ha
+    exact PR_bind (PRA_mono (impAllowed_mono (by simp [Ast.imports]))
+        (ih.resolve c v hd hsb hlib (sub_of_append_left ha))) fun v' hv' =>
+      PR_map (PRA_mono (impAllowed_mono (by simp [Ast.imports]))
+        (ih.resolve c r hd hsb hlib (sub_of_append_right ha)))
+        (fun a' ha' => by simpa [Ast.reach] using append_sub hv' ha')
+  | dot e k =>
+    simp only [Impl.resolve]
+    exact PR_map (PRA_mono (impAllowed_mono (by simp [Ast.imports]))
+      (ih.resolve c e hd hsb hlib (by simpa [Ast.reach] using ha))) (by simp [Ast.reach])
   | imp p =>
-    simp only [Impl.compile, hfix.2.2.1, Bool.true_and]
+    simp only [Impl.resolve, hfix.2.2.1, Bool.true_and]
     by_cases hs : c.sandboxed = true
     · simp only [hs, ↓reduceIte]
-      exact ⟨LogOK_nil C _, by intro a ps h; cases h⟩
+      exact ⟨LogOK_nil C _, by intro a h; cases h⟩
     · have hs' : c.sandboxed = false := by simpa using hs
       have hfs : FsOK W C := hsb.resolve_left hs
       have hA : impAllowed W c (.imp p) = p :: fsImports W.fs := by simp [impAllowed, hs', Ast.imports]
@@ -704,66 +943,66 @@ theorem inv_compile {W : World} {C : List Cap} {n : Nat} (ih : Inv W C n)
       simp only [hs', Bool.false_eq_true, ↓reduceIte]
       cases hlf : lookupFile W.fs p with
       | none =>
-        exact ⟨⟨by intro cp ag h; simp at h, by intro q h; simp at h; simp [h]⟩, by intro a ps h; cases h⟩
+        exact ⟨⟨by intro cp ag h; simp at h, by intro q h; simp at h; simp [h]⟩, by intro a h; cases h⟩
       | some f =>
         cases f with
         | bytes =>
           refine ⟨⟨by intro cp ag h; simp at h, by intro q h; simp at h; simp [h]⟩, ?_⟩
-          intro a ps' h
-          simp only [Option.some.injEq, Prod.mk.injEq] at h
-          obtain ⟨h1, h2⟩ := h
-          subst h1; subst h2
-          exact ⟨by simp [Ast.reach, Val.reach], hpr, hpl⟩
+          intro a h
+          simp only [Option.some.injEq] at h
+          subst h
+          simp [Ast.reach, Val.reach]
         | code src =>
           simp only
           have hps0 : parseScope0 W c = baseScope c := by simp [parseScope0, hfix.1]
           rw [hps0]
           have hbs := baseScope_ok hlib
-          have hsrc := ih.compile c (baseScope c) src hd hsb hlib hbs.1 hbs.2 (hfs p src hlf)
-          have hsub : impAllowed W c src ⊆ p :: fsImports W.fs := by
+          have hsubsrc : impAllowed W c src ⊆ p :: fsImports W.fs := by
             simp only [impAllowed, hs', Bool.false_eq_true, ↓reduceIte]
             intro q hq
             rcases List.mem_append.1 hq with h1 | h1
             · exact List.mem_cons_of_mem _ (fsImports_of_lookup W.fs p src hlf h1)
             · exact List.mem_cons_of_mem _ h1
-          have hsrc' := PCA_mono hsub hsrc
-          refine ⟨⟨?_, ?_⟩, ?_⟩
-          · intro cp ag h
-            simp only [List.mem_cons] at h
-            rcases h with h | h
-            · cases h
-            · exact hsrc'.1.1 cp ag h
-          · intro q h
-            simp only [List.mem_cons, Eff.imported.injEq] at h
-            rcases h with h | h
-            · simp [h]
-            · exact hsrc'.1.2 q h
-          · intro a ps' h
-            cases hc : (compile W n c (baseScope c) src).1 with
+          have hexp := PCA_mono hsubsrc (ih.expand c (baseScope c) src hd hsb hlib hbs.1 hbs.2 (hfs p src hlf))
+          have himp := expand_imports W n c (baseScope c) src
+          revert hexp himp
+          generalize Impl.expand W n c (baseScope c) src = e
+          intro hexp himp
+          obtain ⟨oe, le⟩ := e
+          have hcons : ∀ {l : List Eff}, LogOK C (p :: fsImports W.fs) l →
+              LogOK C (p :: fsImports W.fs) (Eff.imported p :: l) := by
+            intro l hl
+            refine ⟨?_, ?_⟩
+            · intro cp ag h
+              simp only [List.mem_cons] at h
+              rcases h with h | h
+              · cases h
+              · exact hl.1 cp ag h
+            · intro q h
+              simp only [List.mem_cons, Eff.imported.injEq] at h
+              rcases h with h | h
+              · simp [h]
+              · exact hl.2 q h
+          cases oe with
+          | none => exact ⟨hcons hexp.1, by intro a h; cases h⟩
+          | some x =>
+            obtain ⟨s1, ps1⟩ := x
+            simp only
+            have hs1 := (hexp.2 s1 ps1 rfl).1
+            have hsub1 : impAllowed W c s1 ⊆ p :: fsImports W.fs :=
+              fun q hq => hsubsrc (impAllowed_mono (c := c) (himp s1 ps1 rfl) hq)
+            have hres := PRA_mono hsub1 (ih.resolve c s1 hd hsb hlib hs1)
+            refine ⟨hcons (LogOK_append hexp.1 hres.1), ?_⟩
+            intro a h
+            cases hc : (resolve W n c s1).1 with
             | none => simp [hc] at h
-            | some x =>
-              obtain ⟨a', ps''⟩ := x
-              simp only [hc, Option.map_some, Option.some.injEq, Prod.mk.injEq] at h
-              obtain ⟨h1, h2⟩ := h
-              subst h1; subst h2
-              exact ⟨by simpa [Ast.reach] using (hsrc'.2 a' ps'' hc).1, hpr, hpl⟩
-  | mac f =>
-    simp only [Impl.compile]
-    have hsc : ∀ (s : Val) (e : Ast), s.hasLib = true → s.reach ⊆ C → e.reach ⊆ C → scopeCaps s e ⊆ C := by
-      intro s e hsl hsr he
-      unfold scopeCaps
-      simp only [hsl, Bool.true_or, ↓reduceIte, List.append_nil]
-      exact append_sub hsr he
-    have hnil : ∀ {r : Res}, P C r → PA C (impAllowed W c (.mac f)) r := PA_mono (List.nil_subset _)
-    refine PC_bind (PCA_mono (impAllowed_mono (by simp [Ast.imports]))
-      (ih.compile c ps f hd hsb hlib hpl hpr (by simpa [Ast.reach] using ha))) fun f' ps1 hf' hp1 hl1 => ?_
-    refine PC_bindC (hnil (ih.run c ps1 grammarRef hd
-      (hsc ps1 _ hl1 hp1 (by simp [grammarRef, Ast.reach])))) fun _ _ => ?_
-    refine PC_bindC (hnil (ih.run c ps1 f' hd (hsc ps1 f' hl1 hp1 hf'))) fun fv hfv => ?_
-    refine PC_bindC (hnil (ih.call c fv .data hd hfv (by simp [Val.reach]))) fun v hv => ?_
-    exact PC_ret (by simpa [Ast.reach] using hv) hp1 hl1
+            | some a' =>
+              simp only [hc, Option.map_some, Option.some.injEq] at h
+              subst h
+              simpa [Ast.reach] using hres.2 a' hc
+  | mac f => simp only [Impl.resolve]; exact ⟨LogOK_nil C _, by intro a h; cases h⟩
   | num _ | str _ | quote _ | var _ | tnil | pkg _ | lit _ | imported _ =>
-    simp only [Impl.compile]; exact PC_ret ha hpr hpl
+    simp only [Impl.resolve]; exact PR_ret ha
 
 /-- the invariant holds at every fuel -/
 theorem inv (W : World) (C : List Cap) (hfix : W.fixes.core) (hsafe : W.safe.reach ⊆ safeCaps) :
@@ -771,7 +1010,7 @@ theorem inv (W : World) (C : List Cap) (hfix : W.fixes.core) (hsafe : W.safe.rea
   | 0 => inv_zero W C
   | n+1 =>
     have ih := inv W C hfix hsafe n
-    ⟨inv_compile ih hfix, inv_run ih hfix, inv_call ih hfix hsafe, inv_ceval ih, inv_ews ih hfix⟩
+    ⟨inv_expand ih, inv_resolve ih hfix, inv_run ih hfix, inv_call ih hfix hsafe, inv_ceval ih, inv_ews ih hfix⟩
 
 end Arrai.C18
 
@@ -869,10 +1108,10 @@ theorem unbound_fails_general (W : World) (ec : EvalConfig) (l : Val) (x : Strin
     | succ n =>
       simp only [Impl.evalWithScope, hl]
       cases n with
-      | zero => simp [Impl.compile]
+      | zero => simp [Impl.expand]
       | succ n =>
         have hlib : (sandboxScope W ec).hasLib = true := sandboxScope_hasLib W ec
-        simp only [Impl.compile, Impl.run, hlib, ↓reduceIte, hl, getAttr, hx]
+        simp only [Impl.expand, Impl.resolve, Impl.run, hlib, ↓reduceIte, hl, getAttr, hx]
         split <;> simp [fail]
 
 /-- import syntax at the top of sandboxed source fails without touching the file system -/
@@ -893,7 +1132,7 @@ theorem import_rejected_general (W : World) (hfix : W.fixes.importReject = true)
     | succ n =>
       simp only [Impl.evalWithScope, hl]
       cases n with
-      | zero => simp [Impl.compile]
-      | succ n => simp [Impl.compile, hfix]
+      | zero => simp [Impl.expand]
+      | succ n => simp [Impl.expand, Impl.resolve, hfix]
 
 end Arrai.C18
